@@ -1,6 +1,6 @@
 """Texts for MANIFEST.json: what each registered check claims, and why the rest is not claimed."""
 
-HOOK_COMMITS = ["3736b75", "91e7521"]
+HOOK_COMMITS = ["3736b75", "91e7521", "b807ae2"]
 
 STD_NOTE = ("Trusted base: Kani 0.68 MIR->GOTO translation, CBMC 6.11 + CaDiCaL, Kani's allocator model; "
             "S1 fnv::FnvHashMap replaced by an association list; T1 core::slice::sort::unstable::sort replaced by insertion sort; "
@@ -20,7 +20,7 @@ CLAIMS = {
                  "listed shapes and from arbitrary earlier buffer states (matrix one or two short of / equal to / larger than needed, Jaccard buffers shorter/longer and of small capacity) "
                  "every unchecked access of the distance matrix (row AND column below the dimension), the cost vectors and the Jaccard merge is "
                  "in range. Memory safety of unchecked indexing is exactly what a bounded model checker with pointer checks decides.",
-        "note": STD_NOTE + " NOT covered: the trigram counters (counts.get_unchecked_mut in TrigramIndex::prepare is not executable within memory).",
+        "note": STD_NOTE + " The trigram counters are covered on concrete one-letter titles only (MEM-counters).",
     },
     "C06": {
         "level": "Kernel level only. Solver-decided on real code: (LS-topk) LimitSortIter returns exactly min(limit,n) distinct input items in "
@@ -85,6 +85,25 @@ CLAIMS = {
                  "the solver only for words up to 3 letters; the composed matcher at >= 4 letters exceeds 40 GB.",
         "note": STD_NOTE + " 'The record is found' is not decided end to end: index, text matcher and the composed word matcher at this length are outside.",
     },
+    "C14": {
+        "level": "Kernel level, conditional. Solver-decided on real code for |a|+|b| (resp. n) in 3..5: the joined view, both pre-filters, the distance (one "
+                 "separator = 0.5, within the threshold) and the split of the resulting match over the two words. That word_match and text_match then report "
+                 "the record is a reading of their loops: the composed matcher on >= 4 characters and the text matcher on joined shapes exceed 28-40 GB.",
+        "note": STD_NOTE + " 'Is found' is not decided end to end.",
+    },
+    "C10": {
+        "level": "Store level, enumerated histories. Solver-decided on the real Store::add / clear / top_ixs / TrigramIndex::add / prepare: after each of the "
+                 "listed operation sequences (add, clear, limit change, marker change, empty-query and one-letter lookups, up to 5 operations) the two stateful "
+                 "inputs of Store::search equal those of a freshly built store, for ALL ratings and ids. Titles are concrete one/two-letter words.",
+        "note": STD_NOTE + " Two genuine defects were found this way and repaired in /repo (f3dba01, ece0e74). Histories are enumerated, not exhaustive; "
+                           "Store::search itself is not executed.",
+    },
+    "C12": {
+        "level": "Store level. Solver-decided on the real Store::top_ixs: for 1-3 records with concrete titles (equal titles included) and ALL ratings the empty-query "
+                 "candidates are exactly the min(limit, n) best rated, ties broken by title order, and they reflect records added / limits changed after an "
+                 "earlier empty-query search (ST-top-current). The final ordering by compare_hits and the absence of markers are glued (CMP-order, EMPTY-score).",
+        "note": STD_NOTE + " More than 3 records, limit 0 and separator-only query strings are outside.",
+    },
     "C17": {
         "level": "Bounded model checking of the real Jaccard::<char>::similarity / rel_dist / simple_similarity: for every listed pair of "
                  "lengths (up to 3x3 quick, 3x4 and 5x2 thorough) the value equals |A∩B|/|A∪B| for ALL characters, is symmetric, in [0,1], and "
@@ -97,14 +116,8 @@ CLAIMS = {
 NOT_APPLICABLE = {
     "C02": "highlight() builds a String from symbolic chars (UTF-8 width, length and offset all symbolic): symbolic execution did not finish "
            "(DESIGN F11); ids/positions need Store::search, which is not executable within memory (F10/F12)",
-    "C10": "Store histories are not executable under Kani: Store::add + top_ixs on two records exceeds 20 GB, Vec growth inside Store trips "
-           "Kani's realloc model, TrigramIndex::add on one 1-letter symbolic record runs out of memory (DESIGN F12); only the scratch-state "
-           "lemmas (DL-hist, JAC-hist, TM-local) are decided, under C16/C17/C06",
     "C11": "needs the per-language compose/reduce tables and Text::normalize end-to-end; Lang::unicode_compose/reduce are not executable "
            "under Kani even on concrete input (memcmp-guarded Option, DESIGN F5) and nothing else installed executes this Rust symbolically",
-    "C12": "the empty-query path is Store::top_ixs over &Record with a title comparator: two records already exceed 20 GB (DESIGN F12); the "
-           "selection primitive itself is decided as LS-topk under C06/C07",
-    "C14": "joined / split spellings need text_match with the real matcher on a 1+2-letter title against a 3-letter query: > 28 GB (F14)",
     "C15": "the tokeniser chain (normalize, split, strip, lower, set_* over Lang maps and Unicode tables) is not executable under Kani (F5/F6)",
     "C20": "the registry API is &str-only and runs the tokeniser on every call; Kani did not finish even with every title and query the empty "
            "string (DESIGN F10)",
